@@ -610,7 +610,7 @@ func (c *Ctx) Judge(spec, cfg string, cases []map[string]any, shards int) (faile
 			}
 			if !found || !r.OK || r.Distinct != n+1 {
 				o.ok = false
-				c.Infra("judge %s shard %d: TLC did not complete (ok=%v distinct=%d want=%d)\n%s", spec, s, r.OK, r.Distinct, n+1, tail(r.Out, 2500))
+				c.Infra("judge %s shard %d: TLC did not complete (ok=%v distinct=%d want=%d)\n%s", spec, s, r.OK, r.Distinct, n+1, r.ErrorText)
 			}
 			outs[s] = o
 		}(s)
